@@ -708,12 +708,73 @@ def check_tts(ctx, repo):
             te = lab(y_te)
             ctx.check(te == Vec("fh"), "R5", tag + ":test", "y_test selected by the horizon's own labels",
                       "y_test labels %r, expected the horizon values" % (te,), loc2)
+            # X_test: every row whose label lies in the closed span [min(fh), max(fh)] of the horizon
+            xt = lab(X_te)
+            span = _label_span(xt)
+            if span is None:
+                ctx.undecided("R5", tag + ":X_test", "X_test labels not a two-sided mask over the index: %r" % (xt,), loc2)
+            else:
+                (lo, lo_incl), (hi, hi_incl) = span
+                ok_ = lo == FH0 and hi == FHL and lo_incl and hi_incl
+                ctx.check(ok_, "R5", tag + ":X_test", "X_test = rows with min(fh) <= label <= max(fh)",
+                          "X_test keeps the labels %s %r and %s %r; the exogenous rows of the first / last test label must be included "
+                          "(closed span [min(fh), max(fh)])" % (">=" if lo_incl else ">", lo, "<=" if hi_incl else "<", hi), loc2,
+                          witness={"fh": "absolute [9, 10, 11]", "X_test": "[9, 10] or [10, 11]"} if not ok_ else None)
     # the relative branch rejects in-sample horizons; check_equal_time_index precedes when X given
     from ..cfg import CFG
     g = CFG(f2)
     ce = [n for n in g.nodes if any(dotted(c.func) == "check_equal_time_index" for c in n.calls())]
+    from ..boolx import Atomizer as _At, PathConditions as _PC, atoms_of as _ao, evaluate as _evl2, bind_repo as _br2
+    _br2(repo)
+    pcr = _PC(f2, _At())
+    ats_ = sorted(_ao(pcr.raises))
+    rel_a = [a for a in ats_ if a.endswith(".is_relative")]
+    oos_a = [a for a in ats_ if "is_all_out_of_sample" in a]
+    if len(rel_a) == 1 and len(oos_a) == 1 and len(ats_) <= 8:
+        from itertools import product as _pr
+        others = [a for a in ats_ if a not in rel_a + oos_a]
+        okr = all(_evl2(pcr.raises, dict(zip(others, v), **{rel_a[0]: True, oos_a[0]: False})) for v in _pr((False, True), repeat=len(others)))
+        ctx.check(okr, "R5", "_split_by_fh:in-sample-rejected", "a relative horizon with in-sample steps is rejected (the split is defined for "
+                  "out-of-sample horizons only)", "a relative horizon with steps <= 0 is accepted: index[:-max(fh)] / index[-max(fh):] then "
+                  "yield overlapping or empty parts", ctx.loc(mod, f2), witness={"fh": [0, 1]})
+    else:
+        ctx.check(False if not oos_a else None, "R5", "_split_by_fh:in-sample-rejected", "",
+                  "_split_by_fh never rejects a relative horizon with in-sample steps" if not oos_a else "rejection condition not interpretable: %s" % ats_,
+                  ctx.loc(mod, f2))
     ctx.check(bool(ce), "R5", "_split_by_fh:check_equal_time_index", "y and X indices are compared",
               "check_equal_time_index(y, X) is not called", ctx.loc(mod, f2))
+
+
+def _label_span(v):
+    """((lower, inclusive), (upper, inclusive)) of `index[(index <= hi) & (lo <= index)]`-style label masks, else None."""
+    if not (isinstance(v, Opq) and v.tag == "index" and len(v.args) == 2 and isinstance(v.args[0], Arr) and v.args[0].name == "y.index"):
+        return None
+    m = v.args[1]
+    if not (isinstance(m, Opq) and m.tag == "binop:BitAnd" and len(m.args) == 2):
+        return None
+    lo = hi = None
+    for c in m.args:
+        if not (isinstance(c, Opq) and c.tag.startswith("cmp:") and len(c.args) == 2):
+            return None
+        op = c.tag[4:]
+        a, b = c.args
+        if isinstance(b, Arr) and b.name == "y.index" and not isinstance(a, Arr):
+            a, b = b, a
+            op = {"<=": ">=", "<": ">", ">=": "<=", ">": "<"}.get(op)
+        if not (isinstance(a, Arr) and a.name == "y.index") or op is None:
+            return None
+        bound = as_lin_val(b)
+        if bound is None:
+            return None
+        if op in ("<=", "<"):
+            if hi is not None:
+                return None
+            hi = (bound, op == "<=")
+        else:
+            if lo is not None:
+                return None
+            lo = (bound, op == ">=")
+    return (lo, hi) if lo is not None and hi is not None else None
 
 
 def tts_hooks(interp, frame, call, fname, args, kwargs, st):
